@@ -1,0 +1,23 @@
+//go:build verif
+
+package hub
+
+import (
+	"github.com/enbility/ship-go/api"
+)
+
+// Hooks for the C05 part of the verification harness in /verif (build tag "verif").
+// Add-only: nothing here is compiled into a normal build.
+
+// VerifKeepThisConnection asks the double-connection rule whether a new connection to
+// remoteSKI (incoming or outgoing) would be kept, exactly as ServeHTTP and
+// connectFoundService ask it (without a websocket connection to close).
+func (h *Hub) VerifKeepThisConnection(incomingRequest bool, remoteSKI string) bool {
+	return h.keepThisConnection(nil, incomingRequest, h.ServiceForSKI(remoteSKI))
+}
+
+// VerifCoordinate runs coordinateConnectionInitations for one mDNS entry, i.e. what
+// ReportMdnsEntries does for an entry after its "is this SKI connected" check.
+func (h *Hub) VerifCoordinate(ski string, entry *api.MdnsEntry) {
+	h.coordinateConnectionInitations(ski, entry)
+}
